@@ -53,18 +53,21 @@ BigNums == {"9007199254740991", "9007199254740993", "2147483648", "4294967296",
 
 -----------------------------------------------------------------------------
 (* string-literal bodies, to be wrapped in single quotes *)
-StrAlphabet == <<"a", "4", "f", "0", "1", "9", "x", "u", "n", "\\", "'", "{", "}">>
+StrAlphabet == <<"a", "4", "f", "0", "1", "9", "x", "u", "n", "\\", "'", "{", "}", "\n">>
 HexS == {"a", "4", "f", "0", "1", "9"}
 
 (* states: N normal, B after backslash, X1 X2 (\x), U1..U4 (\u), Z after \0 (a digit now makes it
    legacy octal), END after the closing quote (anything more is garbage); flags: "L" legacy seen *)
 StrStep(q, c) ==
-    CASE q = "N"  -> IF c = "\\" THEN "B" ELSE IF c = "'" THEN "END" ELSE "N"
+    CASE q = "N"  -> IF c = "\\" THEN "B" ELSE IF c = "'" THEN "END"
+                     ELSE IF c = "\n" THEN "X"                     \* a bare line terminator ends nothing: not a literal
+                     ELSE "N"
       [] q = "B"  -> IF c = "x" THEN "X1" ELSE IF c = "u" THEN "U1" ELSE IF c = "0" THEN "Z"
                      ELSE IF c \in {"1", "4"} THEN "LEG"            \* \1..\7: legacy octal escape
                      ELSE IF c = "9" THEN "LEG"                     \* \8 \9: sloppy-only
-                     ELSE "N"
-      [] q = "Z"  -> IF c \in {"0", "1", "4", "9"} THEN "LEG" ELSE IF c = "\\" THEN "B" ELSE IF c = "'" THEN "END" ELSE "N"
+                     ELSE "N"                                       \* (incl. backslash + line terminator: a line continuation)
+      [] q = "Z"  -> IF c \in {"0", "1", "4", "9"} THEN "LEG" ELSE IF c = "\\" THEN "B" ELSE IF c = "'" THEN "END"
+                     ELSE IF c = "\n" THEN "X" ELSE "N"
       [] q = "X1" -> IF c \in HexS THEN "X2" ELSE "X"
       [] q = "X2" -> IF c \in HexS THEN "N" ELSE "X"
       [] q = "U1" -> IF c \in HexS THEN "U2" ELSE "X"               \* \u{...} is outside the WXML subset
